@@ -104,7 +104,7 @@ def main():
             "engine": "coq-model-correspondence",
             "level_claimed": {"category": "proof", "text": c["text"], "design_ref": c["ref"]},
             "level_note": c["note"],
-            "technique": c["technique"],
+            "technique": c["technique"] + "; boundary variants of the generated cases (length and character boundaries) in both tiers, coverage-guided input exploration (libFuzzer) judged by the same model oracle in the thorough tier",
         })
     na = [{"property_id": p, "reason": PENDING.get(p, "check not built yet in this round (planned, see DESIGN.md §7); not claimed until its theorems and correspondence run")}
           for p in ALL if p not in CLAIMS]
